@@ -166,7 +166,8 @@ type op struct {
 // queue is one freshly constructed queue under test.
 type queue interface {
 	apply(o op) (r obs, hung bool)
-	release() // wake whatever a hung call left behind
+	applyRaw(o op) (r obs, hung bool) // the call itself, no shadow, no watchdog: for the concurrent rounds (race.go)
+	release()                         // wake whatever a hung call left behind
 	coqOp(o op) string
 	goOp(o op) string
 }
@@ -598,3 +599,59 @@ func (p *priQ) goOp(o op) string {
 	}
 	return "Len()"
 }
+
+// ---- raw calls for the concurrent rounds: goroutine-safe (no shadow), the round as a whole runs under the watchdog ----
+
+func (p *pipeQ) applyRaw(o op) (obs, bool) {
+	switch o.code {
+	case "a":
+		return direct(func() obs { return p.errObs(p.add(o.x)) }), false
+	case "p":
+		return direct(func() obs { return p.errObs(p.prior(o.x)) }), false
+	case "y":
+		return direct(func() obs { return p.popObs(p.popAnyway()) }), false
+	case "c":
+		return direct(func() obs { p.closeFn(); return obs{"done", 0} }), false
+	}
+	panic("pipe raw op " + o.code)
+}
+func (m *mqQ) applyRaw(o op) (obs, bool) {
+	switch o.code {
+	case "ac":
+		return direct(func() obs { return m.errObs(m.x.AddCtrl(o.x)) }), false
+	case "pc":
+		return direct(func() obs { return m.errObs(m.x.AddPriorCtrl(o.x)) }), false
+	case "ar":
+		return direct(func() obs { return m.errObs(m.x.AddReq(o.x)) }), false
+	case "pr":
+		return direct(func() obs { return m.errObs(m.x.AddPriorReq(o.x)) }), false
+	case "y":
+		return direct(func() obs { return m.popObs(m.x.PopAnyway()) }), false
+	case "c":
+		return direct(func() obs { m.x.Close(); return obs{"done", 0} }), false
+	}
+	panic("mq raw op " + o.code)
+}
+func (s *syncQ) applyRaw(o op) (obs, bool) {
+	switch o.code {
+	case "u":
+		return direct(func() obs { s.x.Push(o.x); return obs{"done", 0} }), false
+	case "t":
+		return direct(func() obs {
+			v, ok := s.x.TryPop()
+			switch {
+			case v != nil && ok:
+				return itemOf(v)
+			case v == nil && ok:
+				return obs{"closed", 0}
+			case v == nil && !ok:
+				return obs{"none", 0}
+			}
+			return obs{"other", otherValue}
+		}), false
+	case "c":
+		return direct(func() obs { s.x.Close(); return obs{"done", 0} }), false
+	}
+	panic("sync raw op " + o.code)
+}
+func (p *priQ) applyRaw(o op) (obs, bool) { return p.apply(o) }
